@@ -330,6 +330,8 @@ namespace PSC {
 
         void operator=(const Composite &other);
 
+        bool hasSameLayout(const Composite &other) const;
+
         DataHolder *getMember(const std::string &name);
 
         const CompositeTypeDefinition &getDefinition(Context &ctx) const;
